@@ -344,8 +344,18 @@ def judge(before, res, after, wfline, op):
         if 1 in signs and -1 in signs:
             items.append(("fan-orientation", "triangles around the resulting vertex have both orientations"))
         elif 0 in signs:
-            # not in general position: `signum` of the post-check takes a flat triangle for a positive one
-            DEGENERATE[0] += 1
+            # `signum` of the post-check takes a flat triangle for a positive one.  A failure of the property when the fans of
+            # both end points were strictly oriented before the call; otherwise the input itself was degenerate (note only)
+            pre = set()
+            for d in before.linked:
+                if before.vid(d) in (va, vb):
+                    a2 = area2(tuple(before.org(x) for x in before.face(d)))
+                    pre.add(0 if a2 == 0 else (1 if a2 > 0 else -1))
+            if pre in ({1}, {-1}):
+                items.append(("fan-degenerate", "a triangle around the resulting vertex has zero area (the fans of both end points "
+                              "were strictly oriented)"))
+            else:
+                DEGENERATE[0] += 1
     expect = +expect
     got = after.tri_multiset()
     if got != expect:
@@ -630,9 +640,7 @@ def d15d_pattern(before, after, op):
     if P not in (toward(A, B, Fr(1, 4)), toward(A, B, Fr(3, 4))):
         return False
 
-    def open_fan(v):
-        return any(before.b[2][d] == 0 or before.b[2][before.b[0][d]] == 0 for d in before.linked if before.vid(d) == v)
-    if not (open_fan(va) or open_fan(vb)):
+    if not (open_fan(before, va) or open_fan(before, vb)):
         return False
     return after.tri_multiset() == +collapse_expect(before, op, P)
 
@@ -665,6 +673,31 @@ def d15e_pattern(before, after, op):
     return all(after.b[0][x] == 0 and after.b[1][x] == 0 and not after.u[x] for x in dangling)
 
 
+def open_fan(m, v):
+    """vertex id v lies on the boundary: one of its darts, or the dart before one of them, has no beta2"""
+    return any(m.b[2][d] == 0 or m.b[2][m.b[0][d]] == 0 for d in m.linked if m.vid(d) == v)
+
+
+def d15f_pattern(before, after, op):
+    """successful collapse_edge of an INTERIOR edge whose two end points both lie on the boundary (allowed by the
+    statement's guard: no common neighbour besides the opposite corners): the mesh is pinched — the darts of the two end
+    points end up in TWO vertex orbits carrying the same coordinates, so the number of vertices does not decrease;
+    triangles, edges, faces, flags are the specified ones"""
+    l = op["e"]
+    r = before.b[2][l]
+    if not r:
+        return False
+    va, vb = before.vid(l), before.vid(before.b[1][l])
+    if not (open_fan(before, va) and open_fan(before, vb)):
+        return False
+    surv = [d for d in before.linked if before.vid(d) in (va, vb) and not after.u[d] and after.face(d)]
+    orbits = {after.vid(d) for d in surv}
+    pts = {after.org(d) for d in surv}
+    v0, e0, f0 = before.counts()
+    v1, e1, f1 = after.counts()
+    return len(orbits) == 2 and len(pts) == 1 and (v1 - v0, e1 - e0, f1 - f0) == (0, -3, -2)
+
+
 def window_signatures(before, res, after, op, items, wfline="wf true true true"):
     """set of finding signatures explaining the failures of one call; 'unknown' when something is not explained"""
     tags = {t for t, _ in items}
@@ -676,12 +709,28 @@ def window_signatures(before, res, after, op, items, wfline="wf true true true")
     try:
         if ok and kind == "swap" and tags <= {"triangles", "vertex-moved", "area", "anchor-vertex"} and d9_pattern(before, after, op):
             return {"swap-corner-averaged"}
-        if ok and kind == "collapse" and tags == {"anchor-face"} and d15a_pattern(before, after, op, items):
-            return {"collapse-face-anchor-not-migrated"}
-        if ok and kind == "collapse" and tags == {"triangles"} and d15d_pattern(before, after, op):
-            return {"collapse-midpoint-weighted"}
-        if ok and kind == "collapse" and "not-triangles" in tags and d15e_pattern(before, after, op):
-            return {"collapse-base-skips-boundary-side"}
+        if ok and kind == "collapse":
+            rest = set(tags)
+            if "fan-degenerate" in rest:
+                # D15g: the only orientation failure is a flat triangle (no triangle of the opposite sign: `fan-orientation`
+                # would be reported instead), on an input whose fans were strictly oriented (checked by `judge`)
+                sigs.add("collapse-accepts-flat-triangle")
+                rest.discard("fan-degenerate")
+            if rest == {"anchor-face"} and d15a_pattern(before, after, op, items):
+                sigs.add("collapse-face-anchor-not-migrated")
+                rest = set()
+            elif rest == {"triangles"} and d15d_pattern(before, after, op):
+                sigs.add("collapse-midpoint-weighted")
+                rest = set()
+            elif rest == {"counts"} and d15f_pattern(before, after, op):
+                sigs.add("collapse-pinches-boundary")
+                rest = set()
+            elif "not-triangles" in rest and d15e_pattern(before, after, op):
+                sigs.add("collapse-base-skips-boundary-side")
+                rest = set()
+            if not rest and sigs:
+                return sigs
+            return {"unknown"}
         if ok and kind == "cutout":
             if tags & {"triangles", "midpoint", "area"}:
                 rest = d15c_pattern(before, res, after, wfline, op)
